@@ -63,6 +63,8 @@ def inputs(run: Run, cfg: dict) -> list[dict]:
         add(alpha.concretise(a, rng, 1), "soup", a)
     for c in gens.lexgen(run, cfg["lex"]):
         add(c["src"], "lexgen", c["lex"])
+        if cases and cases[-1]["src"] == c["src"]:
+            cases[-1]["predicted"] = c
     from . import c10
 
     for c in c10.generate(run, run.tier)[:: (3 if run.tier == "quick" else 1)]:
@@ -91,6 +93,15 @@ def check(run: Run) -> None:
         traces.append(trace_of(i, c["src"], r["toks"]))
         if len(c["src"]) > 6:
             run.sample({"src": c["src"], "tokens": [[t[0], t[1]] for t in r["toks"]][:12]})
+    # refinement: the lexeme-level scanner model (LexGen.tla) predicts these streams exactly
+    from .. import lexgen
+
+    lx = [(c["predicted"], r) for c, r in zip(cases, res) if "predicted" in c]
+    d = lexgen.drift([a for a, _ in lx], [b for _, b in lx])
+    run.extra["lexgen_streams_predicted"] = len(lx)
+    if d:
+        run.drift["LexGen.tla prediction vs real token stream"] = len(d)
+        run.extra["lexgen_drift_examples"] = d[:5]
     verdicts = validate_traces(run, "TokStream", traces, name="tokstream")
     for i, (clause, k) in sorted(verdicts.items()):
         if clause != "ok":
